@@ -1949,3 +1949,57 @@ def c12_second(rp):
             if abs(a - b) > 1e-9 or not (-1e-12 <= a <= 1 + 1e-9):
                 return True, f"{name}(beta={b2}).{rp['op']} after {name}(beta={b1}).{rp['op']}: {g} ; closed form {w}"
     return False, "instances do not influence each other"
+
+
+@checker("c12_history")
+def c12_history(rp):
+    """the same instance, used before (a bigger game sharing the rating objects; this game with other
+    values in the same objects), against the closed form of the game at hand"""
+    from pyvc.specs import predict as PS
+    name, beta, m, teams = _pred_setup(rp)
+    X = PS.FloatX()
+    R = rating_cls(name)
+    ops = ("predict_win", "predict_draw", "predict_rank")
+    hx = rp.get("extra") or [[enc(21.0), enc(4.0)]]
+    extra = [R(num(a), num(b)) for a, b in hx]
+    objs = [p for t in teams for p in t]
+    keep = [(p.mu, p.sigma) for p in objs]
+    hv = rp.get("history_values")
+    for k, p in enumerate(objs):
+        if hv:
+            p.mu, p.sigma = num(hv[k % len(hv)][0]), num(hv[k % len(hv)][1])
+        else:
+            p.mu, p.sigma = p.mu + 3.0 + k, p.sigma * 0.5 + 0.25
+    for o in ops:
+        getattr(m, o)(teams)
+    for p, (m0, s0) in zip(objs, keep):
+        p.mu, p.sigma = m0, s0
+    for o in ops:
+        getattr(m, o)([extra] + teams)
+    got = getattr(m, rp["op"])(teams)
+    gm = [[(p.mu, p.sigma) for p in t] for t in teams]
+    if rp["op"] == "predict_win":
+        g, w = got, PS.win(gm, beta, X)
+    elif rp["op"] == "predict_draw":
+        g, w = [got], [PS.draw(gm, beta, X)]
+    else:
+        g, w = [p for (_r, p) in got], PS.rank_probabilities(gm, beta, X)
+    for a, b in zip(g, w):
+        if abs(a - b) > 1e-9:
+            return True, f"{name}.{rp['op']} on an instance used before -> {g}; first use / closed form {w}"
+    return len(g) != len(w), "earlier calls do not influence the result"
+
+
+@searcher("c12_history")
+def c12_history_search(rp, seed):
+    rnd = random.Random(seed)
+    sizes = [len(x) for x in rp["game"]]
+    for k in range(100):
+        r2 = dict(rp, game=_rand_pred(rnd, sizes), extra=[[enc(rnd.uniform(0, 50)), enc(rnd.choice([0.5, 3.0, 8.0]))] for _ in range(rnd.choice([1, 1, 2]))])
+        try:
+            bad, msg = c12_history(r2)
+        except Exception:  # noqa: BLE001
+            continue
+        if bad:
+            return r2, msg
+    return None
